@@ -9,21 +9,31 @@ stop_words = {
     "Decimal",
     "Enum",
     "False",
+    "ForwardRef",
+    "Mapping",
     "Meta",
     "None",
     "Optional",
     "QName",
+    "Sequence",
     "True",
     "Union",
+    "XmlDate",
+    "XmlDateTime",
+    "XmlDuration",
+    "XmlPeriod",
+    "XmlTime",
     "and",
     "as",
     "assert",
     "async",
     "await",
     "bool",
+    "bytes",
     "break",
     "class",
     "continue",
+    "dataclass",
     "def",
     "del",
     "dict",
@@ -43,6 +53,7 @@ stop_words = {
     "int",
     "is",
     "lambda",
+    "mro",
     "list",
     "nonlocal",
     "not",
@@ -54,6 +65,7 @@ stop_words = {
     "self",
     "str",
     "try",
+    "tuple",
     "type",
     "validate",
     "while",
